@@ -68,7 +68,10 @@ def _instr_cb(code, offset):
 # Functions the I/O thread evaluates without any lock over state that workers change: a thread
 # switch between two bytecodes of ONE source line matters there (e.g. `x and x[-1]`), so these get
 # a yield point per instruction instead of per line.
-INSTRUCTION_LEVEL = (("channel", "HTTPChannel", "readable"), ("channel", "HTTPChannel", "writable"))
+INSTRUCTION_LEVEL = (
+    ("channel", "HTTPChannel", "readable"), ("channel", "HTTPChannel", "writable"), ("channel", "HTTPChannel", "handle_write"),
+    ("server", "BaseWSGIServer", "maintenance"), ("server", "BaseWSGIServer", "close_marked_channels"),
+)
 
 
 def install():
